@@ -240,3 +240,152 @@ Proof.
   - intros s [I|[I|[]]]; discriminate.
   - split; [intros []|exact I].
 Qed.
+
+(* ---------------- when is a pass-through combinator `dropped`?  Only after a drop operation or an unwinding poll ---------------- *)
+Section Dropped.
+  Variable St : Type.
+  Variable pollf : W St -> nat -> nat -> W St.
+  Variable dropsf : St -> list ev.
+  Hypothesis poll_DX : forall w pid np, dropped St w = false -> dropped St (pollf w pid np) = true -> In EEndX (strip (tr St (pollf w pid np))).
+  Lemma dropped_keeps w o e : dropped St w = true -> In e (strip (tr St w)) -> In e (strip (tr St (p_step St pollf dropsf w o))).
+  Proof.
+    intros Hd I. destruct o; cbn [p_step].
+    - rewrite Hd, orb_true_r. exact I.
+    - rewrite Hd, orb_true_r. exact I.
+    - destruct (fire_handle_T St (fun _ => 0) (emit St w [EO]) c k) as (_ & _ & C). rewrite C. cbn. rewrite strip_app. apply in_or_app; left; exact I.
+    - rewrite Hd. cbn [tr set_flags emit]. rewrite strip_app. apply in_or_app; left; exact I.
+    - exact I.
+  Qed.
+  Lemma dropped_stays w o : dropped St w = true -> dropped St (p_step St pollf dropsf w o) = true.
+  Proof.
+    intros Hd. destruct o; cbn [p_step].
+    - rewrite Hd, orb_true_r. exact Hd.
+    - rewrite Hd, orb_true_r. exact Hd.
+    - destruct (fire_handle_T St (fun _ => 0) (emit St w [EO]) c k) as (_ & B & _). rewrite B. exact Hd.
+    - rewrite Hd. reflexivity.
+    - exact Hd.
+  Qed.
+  Lemma keeps_run ops : forall w e, dropped St w = true -> In e (strip (tr St w)) -> In e (strip (tr St (fold_left (p_step St pollf dropsf) ops w))).
+  Proof. induction ops as [|o r IH]; intros w e Hd I; cbn; auto. apply IH; [apply dropped_stays, Hd|apply dropped_keeps; auto]. Qed.
+  Theorem DX_run ops : forall w, dropped St w = false -> dropped St (fold_left (p_step St pollf dropsf) ops w) = true ->
+    In ODrop ops \/ In EEndX (strip (tr St (fold_left (p_step St pollf dropsf) ops w))).
+  Proof.
+    induction ops as [|o r IH]; intros w Hd H; cbn in *; [congruence|].
+    destruct (dropped St (p_step St pollf dropsf w o)) eqn:E1.
+    - destruct o; cbn [p_step] in E1 |- *.
+      + rewrite Hd, orb_false_r in *. destruct (finished St w); [congruence|]. right. apply keeps_run; [exact E1|apply poll_DX; auto].
+      + rewrite Hd, orb_false_r in *. destruct (finished St w); [congruence|]. right. apply keeps_run; [exact E1|apply poll_DX; auto].
+      + destruct (fire_handle_T St (fun _ => 0) (emit St w [EO]) c k) as (_ & B & _). rewrite B in E1. cbn in E1. congruence.
+      + left; left; reflexivity.
+      + congruence.
+    - destruct (IH _ E1 H) as [I|I]; [left; right; exact I|right; exact I].
+  Qed.
+End Dropped.
+
+Lemma poll_direct_dropped St (w: W St) m pid : dropped St (fst (poll_direct St w m pid)) = dropped St w.
+Proof. pose proof (poll_direct_spec St w m pid) as H. destruct (poll_direct St w m pid) as [w' a]. destruct H as (_ & B & _). exact B. Qed.
+Lemma finish_dropped St (w: W St) o fin : dropped St (finish_p St w o fin) = dropped St w.
+Proof. destruct (finish_p_spec St w o fin) as (_ & B & _). exact B. Qed.
+Lemma unwind_has_X St (w: W St) drops : In EEndX (strip (tr St (unwind_p St w drops))).
+Proof. unfold unwind_p. cbn [tr set_flags emit]. rewrite strip_app. apply in_or_app; right. cbn. right. rewrite strip_app. apply in_or_app; right. left; reflexivity. Qed.
+
+Lemma race_scan_dropped is : forall (w: W rst) pid, dropped _ (fst (race_scan w is pid)) = dropped _ w.
+Proof.
+  induction is as [|i rest IH]; intros w pid; cbn [race_scan]; auto.
+  pose proof (poll_direct_dropped rst w i pid) as D. destruct (poll_direct rst w i pid) as [w1 a]. cbn [fst] in D.
+  destruct a as [|[v|v]|v| |]; cbn [fst]; try exact D; rewrite IH; exact D.
+Qed.
+Lemma race_poll_DX w pid np : dropped _ w = false -> dropped _ (race_poll w pid np) = true -> In EEndX (strip (tr _ (race_poll w pid np))).
+Proof.
+  intros Hd. unfold race_poll. set (w0 := begin_p rst w pid np).
+  destruct (r_n (cs rst w0) =? 0); [intros _; apply unwind_has_X|].
+  set (w1 := set_cs rst w0 _).
+  pose proof (race_scan_dropped (rot (r_n (cs rst w0)) (r_off (cs rst w0))) w1 pid) as D.
+  destruct (race_scan w1 (rot (r_n (cs rst w0)) (r_off (cs rst w0))) pid) as [w2 [[o|]|]]; cbn [fst] in D.
+  - rewrite finish_dropped, D. cbn. rewrite Hd. discriminate.
+  - intros _. apply unwind_has_X.
+  - cbn [dropped emit]. rewrite D. cbn. rewrite Hd. discriminate.
+Qed.
+Lemma kdone_dropped (w: W kst) i : dropped _ (fst (kdone w i)) = dropped _ w.
+Proof. unfold kdone. destruct (k_kind (cs kst w) =? 2); reflexivity. Qed.
+Lemma rok_scan_dropped is : forall (w: W kst) pid, dropped _ (fst (rok_scan w is pid)) = dropped _ w.
+Proof.
+  induction is as [|i rest IH]; intros w pid; cbn [rok_scan]; auto.
+  destruct (nth i (k_errs (cs kst w)) None); [apply IH|].
+  pose proof (poll_direct_dropped kst w i pid) as D. destruct (poll_direct kst w i pid) as [w1 a]. cbn [fst] in D.
+  destruct a as [|[v|e]|v| |]; cbn [fst]; try exact D; try (rewrite IH; exact D).
+  - pose proof (kdone_dropped w1 i) as K. destruct (kdone w1 i) as [w1' ed]. cbn [fst] in *. cbn. rewrite K. exact D.
+  - pose proof (kdone_dropped w1 i) as K. destruct (kdone w1 i) as [w1' ed]. cbn [fst] in *. rewrite IH. cbn. rewrite K. exact D.
+Qed.
+Lemma rok_poll_DX w pid np : dropped _ w = false -> dropped _ (rok_poll w pid np) = true -> In EEndX (strip (tr _ (rok_poll w pid np))).
+Proof.
+  intros Hd. unfold rok_poll. set (w0 := begin_p kst w pid np).
+  set (is := if k_kind (cs kst w0) =? 1 then rot _ _ else seq 0 _).
+  set (w1 := if k_kind (cs kst w0) =? 1 then set_cs kst w0 _ else w0).
+  assert (D1 : dropped _ w1 = false) by (subst w1; destruct (k_kind (cs kst w0) =? 1); exact Hd).
+  pose proof (rok_scan_dropped is w1 pid) as D.
+  destruct (rok_scan w1 is pid) as [w2 [[o|]|]]; cbn [fst] in D.
+  - rewrite finish_dropped, D, D1. discriminate.
+  - intros _. apply unwind_has_X.
+  - destruct (k_completed (cs kst w2) =? k_n (cs kst w2)); [rewrite finish_dropped|cbn [dropped emit]]; rewrite D, D1; discriminate.
+Qed.
+Lemma chain_loop_DX fuel : forall (w: W cst) pid, dropped _ w = false -> dropped _ (chain_loop fuel w pid) = true -> In EEndX (strip (tr _ (chain_loop fuel w pid))).
+Proof.
+  induction fuel as [|f IH]; intros w pid Hd; cbn [chain_loop]; [congruence|].
+  destruct (c_idx (cs cst w) =? c_n (cs cst w)); [rewrite finish_dropped; congruence|].
+  pose proof (poll_direct_dropped cst w (c_idx (cs cst w)) pid) as D. destruct (poll_direct cst w (c_idx (cs cst w)) pid) as [w1 a]. cbn [fst] in D.
+  destruct a as [|r|v| |].
+  - cbn [dropped emit]. congruence.
+  - cbn [dropped emit]. congruence.
+  - rewrite finish_dropped. congruence.
+  - apply IH. cbn. congruence.
+  - intros _. apply unwind_has_X.
+Qed.
+Lemma w_inner_DX w1 late pid : dropped _ w1 = false -> dropped _ (w_inner w1 late pid) = true -> In EEndX (strip (tr _ (w_inner w1 late pid))).
+Proof.
+  intros Hd. unfold w_inner.
+  pose proof (poll_direct_dropped ust w1 1 pid) as D. destruct (poll_direct ust w1 1 pid) as [w2 a]. cbn [fst] in D.
+  destruct a as [|[v|v]|v| |]; try (rewrite finish_dropped; cbn [dropped emit]; congruence).
+  - cbn [dropped emit]. congruence.
+  - intros _. apply unwind_has_X.
+Qed.
+Lemma wait_poll_DX w pid np : dropped _ w = false -> dropped _ (wait_poll w pid np) = true -> In EEndX (strip (tr _ (wait_poll w pid np))).
+Proof.
+  intros Hd. rewrite wait_poll_eq. cbv zeta. set (w0 := begin_p ust w pid np).
+  assert (H0 : dropped _ w0 = false) by exact Hd.
+  destruct (u_started (cs ust w0)); [apply w_inner_DX, H0|].
+  pose proof (poll_direct_dropped ust w0 0 pid) as D. destruct (poll_direct ust w0 0 pid) as [w1 a]. cbn [fst] in D.
+  assert (H1 : dropped _ w1 = false) by congruence.
+  destruct a as [|[v|v]|v| |].
+  - cbn [dropped emit]. congruence.
+  - destruct (u_stream (cs ust w0)); apply w_inner_DX; exact H1.
+  - destruct (u_stream (cs ust w0)); apply w_inner_DX; exact H1.
+  - apply w_inner_DX. exact H1.
+  - apply w_inner_DX. exact H1.
+  - intros _. apply unwind_has_X.
+Qed.
+
+(* the hypothesis `dropped = false` of the functional theorems fails only through a drop operation or a child's panic *)
+Theorem race_dropped_means scs ops : scs <> [] -> dropped _ (race_world scs ops) = true -> In ODrop ops \/ In (EAns APanic) (strip (tr _ (race_world scs ops))).
+Proof.
+  intros Hne H. pose proof (race_unwinds_only_on_child_panic scs ops Hne) as X. unfold race_world, p_world in *.
+  apply (DX_run rst race_poll r_drops race_poll_DX) in H; [|reflexivity]. destruct H as [I|I]; [left; exact I|right; exact (X I)].
+Qed.
+Theorem race_ok_dropped_means kind scs ops : dropped _ (race_ok_world kind scs ops) = true -> In ODrop ops \/ In (EAns APanic) (strip (tr _ (race_ok_world kind scs ops))).
+Proof.
+  intros H. pose proof (race_ok_unwinds_only_on_child_panic kind scs ops) as X. unfold race_ok_world, p_world in *.
+  apply (DX_run kst rok_poll k_drops rok_poll_DX) in H; [|reflexivity]. destruct H as [I|I]; [left; exact I|right; exact (X I)].
+Qed.
+Theorem chain_dropped_means scs ops : dropped _ (chain_world scs ops) = true -> In ODrop ops \/ In (EAns APanic) (strip (tr _ (chain_world scs ops))).
+Proof.
+  intros H.
+  assert (PD : forall w pid np, dropped _ w = false -> dropped _ (chain_poll w pid np) = true -> In EEndX (strip (tr _ (chain_poll w pid np)))).
+  { intros w pid np Hd. unfold chain_poll. apply chain_loop_DX. exact Hd. }
+  pose proof (chain_unwinds_only_on_child_panic scs ops) as X. unfold chain_world, p_world in *.
+  apply (DX_run cst chain_poll c_drops PD) in H; [|reflexivity]. destruct H as [I|I]; [left; exact I|right; exact (X I)].
+Qed.
+Theorem wait_until_dropped_means stream scs ops : dropped _ (wait_world stream scs ops) = true -> In ODrop ops \/ In (EAns APanic) (strip (tr _ (wait_world stream scs ops))).
+Proof.
+  intros H. pose proof (wait_until_unwinds_only_on_child_panic stream scs ops) as X. unfold wait_world, p_world in *.
+  apply (DX_run ust wait_poll u_drops wait_poll_DX) in H; [|reflexivity]. destruct H as [I|I]; [left; exact I|right; exact (X I)].
+Qed.
